@@ -14,8 +14,10 @@ program order (written against the regenerated skeletons `C07_skeleton_next/rele
 
 ```
 Next:     idle --Lock (blocked while held)--> nTest --next >= reserved?--> uGet | nHand
-update:   uGet --store.Get ok--> uNext m --seq.next = num--> uSet --store.Set ok--> uRes r
-               --seq.reserved = reserved--> nHand      (Get / Set may fail: the call returns err)
+update:   uGet --store.Get ok--> uNext m --seq.next = num; lease := min interval (MaxUint64 - next)-->
+               uSet (lease > 0) | unlock err (lease = 0: ErrSequenceExhausted)
+          uSet --store.Set(next + lease) ok--> uRes r --seq.reserved = reserved--> nHand
+               (Get / Set may fail: the call returns err)
           nHand --val := next; next++--> unlock (num val) --deferred Unlock--> idle
 Release:  idle --Lock--> rTest --next >= reserved?--> unlock ok | rSet --store.Set ok--> rRes
                --seq.reserved = seq.next--> unlock ok   (Set may fail: the call returns err)
@@ -51,7 +53,7 @@ inductive Pc
   | nTest                -- Next: mutex held, before `if seq.next >= seq.reserved`
   | uGet                 -- update(): before `seq.store.Get(seq.key)`
   | uNext (m : Nat)      -- update(): Get returned `m` (0: key not found), before `seq.next = num`
-  | uSet                 -- update(): before `seq.store.Set(seq.key, seq.next + seq.interval)`
+  | uSet                 -- update(): lease > 0 computed, before `seq.store.Set(seq.key, seq.next + lease)`
   | uRes (r : Nat)       -- update(): Set done, before `seq.reserved = reserved`
   | nHand                -- Next: before `val := seq.next; seq.next++`
   | rTest                -- Release: mutex held, before `if seq.next >= seq.reserved`
@@ -126,10 +128,17 @@ def mstep (sh : Shared) (g : Gor) : List (Shared × Gor) :=
     withObj sh fun _ =>
       [(sh, { g with pc := .uNext (mark sh.st) }),
        (lin sh g.id (.failNext .get) .err, { g with pc := .unlock .err })]
-  | .uNext m => withObj sh fun o => [(setObj sh { o with next := m }, { g with pc := .uSet })]
+  | .uNext m =>
+    withObj sh fun o =>
+      -- `seq.next = num`; then (local computation under the mutex) the lease, capped at the end of the number
+      -- space; nothing left: `return ErrSequenceExhausted` (the deferred Unlock follows, nothing is handed out)
+      if lease m o.interval = 0 then
+        [(lin (setObj sh { o with next := m }) g.id .next .err, { g with pc := .unlock .err })]
+      else [(setObj sh { o with next := m }, { g with pc := .uSet })]
   | .uSet =>
     withObj sh fun o =>
-      [(setStore sh (o.next + o.interval) .nextWrite, { g with pc := .uRes (o.next + o.interval) }),
+      [(setStore sh (o.next + lease o.next o.interval) .nextWrite,
+        { g with pc := .uRes (o.next + lease o.next o.interval) }),
        (lin sh g.id (.failNext .set) .err, { g with pc := .unlock .err })]
   | .uRes r => withObj sh fun o => [(setObj sh { o with reserved := r }, { g with pc := .nHand })]
   | .nHand =>
